@@ -6,6 +6,7 @@ import (
 	"go/token"
 	"go/types"
 	"sort"
+	"strconv"
 	"strings"
 	"unicode"
 
@@ -555,6 +556,17 @@ func c12Enum(c *Ctx, F *model.Fields) {
 			if !ok || model.LoadedPolicyField(mu.Map) != setField {
 				continue
 			}
+			// table form: set[tokens[v]] = true, tokens being a constant package-level map from SandboxValue to the token
+			if tbl := constTableOf(mu.Key); tbl != nil && model.IsTrue(mu.Value) {
+				for k, tok := range tbl {
+					if n, err := strconv.ParseInt(k, 10, 64); err == nil {
+						if t, err := strconv.Unquote(tok); err == nil {
+							got[n] = t
+						}
+					}
+				}
+				continue
+			}
 			key, isC := constString(mu.Key)
 			if !isC || !model.IsTrue(mu.Value) {
 				R.Fail("C12.R5", "update:"+A.Sym.Of(mu.Key), "(*Policy).RequireSandboxOnIFrame: set update", c.P.Pos(mu.Pos()), "non-constant token or value other than true")
@@ -591,4 +603,29 @@ func c12Enum(c *Ctx, F *model.Fields) {
 		}
 	}
 	R.Role("C12.R5", "SandboxValue constants", len(vals), 14)
+}
+
+// constTableOf: v is the value found by a lookup in a constant package-level map (pa.ConstMaps); returns that map.
+func constTableOf(v ssa.Value) map[string]string {
+	var lk *ssa.Lookup
+	switch x := v.(type) {
+	case *ssa.Extract:
+		if x.Index == 0 {
+			lk, _ = x.Tuple.(*ssa.Lookup)
+		}
+	case *ssa.Lookup:
+		lk = x
+	}
+	if lk == nil {
+		return nil
+	}
+	u, ok := lk.X.(*ssa.UnOp)
+	if !ok {
+		return nil
+	}
+	g, ok := u.X.(*ssa.Global)
+	if !ok {
+		return nil
+	}
+	return pa.ConstMaps[g]
 }
